@@ -165,7 +165,7 @@ def decl_name(block):
 SUBSET_RECIPES = [("arrNew",), ("arrNew", "arrNewPat"), ("strOwned",), ("vecRet",), ("Item",), ("Holder",),
                   ("arrNewAlloc",), ("vecRetD",), ("vecAlloc",), ("Box", "makeBox"), ("strVal",), ("deep",),
                   ("Item", "makeItem", "copyItem"), ("vecIota", "vecAlloc", "vecRet"),
-                  ("Pt", "ptSum", "ptOut"), ("Arr", "arrTotal"), ("Pt", "Arr", "arrTotal", "ptScale")]
+                  ("Pt", "ptSum", "ptOut"), ("Arr", "arrTotal"), ("Bag",), ("Pt", "Arr", "arrTotal", "ptScale")]
 # not in F_CFI variants: std::vector results (shroud cannot generate them), char** (other Fortran
 # interface), strFinal (its user-written 'final' clause is a c_buf statement, there is no such hook
 # for the CFI wrapper)
@@ -252,7 +252,7 @@ class Build(object):
                     return word in fp.read()
             except OSError:
                 return False
-        for cls in ("Item", "Box", "Holder", "deep", "Pt"):
+        for cls in ("Item", "Box", "Holder", "deep", "Pt", "Bag"):
             if self.have is None or cls in self.have:
                 flags.append("-DHAVE_" + cls)
         if has("typessimlib.h", "SIM_SHROUD_array"):
@@ -611,7 +611,10 @@ def judge(driver, ops, exps, out, err, returncode, known=None, label=None):
                 if not is_known(v):
                     vs.append(v)
             if len(nums) == 6 and nums[3] < nums[4] < nums[5] and nums[2] < nums[3]:
-                v = {"inv": "I6.4-python-heap-grows", "kind": "repeated-call", "op_index": k, "op": op[0],
+                # the amount per call is part of the identity: a recorded leak of one block per call
+                # does not cover a call that suddenly leaves three
+                v = {"inv": "I6.4-python-heap-grows", "kind": "repeated-call+%d" % (nums[5] - nums[4]),
+                     "op_index": k, "op": op[0],
                      "detail": {"wrapper_phase_blocks_after_each_of_6_calls": nums}}
                 if not is_known(v):
                     vs.append(v)
